@@ -234,6 +234,8 @@ var hostilePaths = []string{
 	"@SANDBOX@/abs_esc", "@SANDBOX@/decoy.txt", "/", ".", "", "./../esc5", "../out_sibling/f", "sub/../../esc6",
 	"..\\esc7", "a\x00/../esc8", "../.thruflux_resumedata/x", "....//esc9", "../out/../esc10",
 	"../decoydir", "../out_sibling", "../decoydir/", "x/../../out_sibling",
+	// an empty element in front of the parent references
+	"d//../../esc11", "d//../../../decoy.txt", "r//../..", "//../esc12", "a/b//../../../decoydir/x",
 }
 var hostileIDs = []string{"../../id_esc", "../id_esc2", "a/b", "@SANDBOX@/id_abs", "..", "x/../../../id_esc3", "../decoy", "../.thruflux_resumedata/decoyid"}
 var benignPaths = []string{"ok.bin", "sub/ok2.bin", "a..b", "dir with space/f", "deep/er/still/f.bin"}
